@@ -201,7 +201,7 @@ replay_insert (munge_cred_t c)
     if (!(r = replay_alloc ())) {
         return (-1);
     }
-    r->data.t_expired = (time_t) (m->time0 + m->ttl);
+    r->data.t_expired = (time_t) m->time0 + m->ttl;
     assert (c->mac_len >= sizeof (r->data.mac));
     memcpy (r->data.mac, c->mac, sizeof (r->data.mac));
     /*
@@ -247,7 +247,7 @@ replay_remove (munge_cred_t c)
 
     /*  Compute the cred's "hash key".
      */
-    rnode.data.t_expired = (time_t) (m->time0 + m->ttl);
+    rnode.data.t_expired = (time_t) m->time0 + m->ttl;
     assert (c->mac_len >= sizeof (rnode.data.mac));
     memcpy (rnode.data.mac, c->mac, sizeof (rnode.data.mac));
 
